@@ -175,6 +175,9 @@ impl MCOptimiser {
         let threshold: f64 = rng.gen();
 
         match new {
+            // A score which is not a number (coincident particles) can't be compared with anything,
+            // it is no more valid than a configuration without a score.
+            Some(new_score) if new_score.is_nan() => None,
             // New score is better, keep updated state
             Some(new_score) if new_score > old => Some(new_score),
             // When the score increases, there is a probability of accepting the new
